@@ -19,6 +19,9 @@ def parse(t):
 def show(x): return x if isinstance(x,str) else '('+' '.join(show(y) for y in x)+')'
 g=parse(goal)
 reach=g[1][1]; body=g[1][2][1]
+hyps=[]
+while isinstance(body,list) and body and body[0]=='=>':
+    hyps.append(body[1]); body=body[2]
 conj=[]
 def flat(x):
     if isinstance(x,list) and x and x[0]=='and':
@@ -27,7 +30,7 @@ def flat(x):
 flat(body)
 pre='\n'.join(lines[:idx])
 for c in conj:
-    q=pre+'\n(assert (and %s (not %s)))\n(check-sat)\n'%(show(reach),show(c))
+    q=pre+'\n'+''.join('(assert %s)\n'%show(h) for h in hyps)+'(assert (and %s (not %s)))\n(check-sat)\n'%(show(reach),show(c))
     open('/tmp/split_h.smt2','w').write(q)
     out=subprocess.run(['z3-new','-T:'+tmo,'/tmp/split_h.smt2'],capture_output=True,text=True).stdout.split('\n')
     print(out[0],'<=',show(c)[:300])
